@@ -42,13 +42,13 @@ def _classify(op, a, b):
     return ("view-differs", "")
 
 PROP = {
-    "thm": ["Umya.Thm.C02", "Umya.Thm.C02Bytes", "Umya.Thm.C02Sheet", "Umya.Thm.C02Book", "Umya.Thm.C02Gen", "Umya.Thm.C02SheetBytes", "Umya.Thm.C02Pkg"],
+    "thm": ["Umya.Thm.C02", "Umya.Thm.C02Bytes", "Umya.Thm.C02Sheet", "Umya.Thm.C02Book", "Umya.Thm.C02Gen", "Umya.Thm.C02SheetBytes", "Umya.Thm.C02Pkg", "Umya.Thm.C02PkgCmt"],
     "harness": "c02",
     "level": "proof",
     "stateful": True,
     "disagreement_is_oracle": True,
     "classify_disagreement": _classify,
-    "level_text": "Proof for the modelled package: for a workbook of n plain sheets (any n; cells of the modelled fragment, rows, merged ranges, hyperlinks, defined names, hidden sheets) the chain writer models -> characters -> element trees -> package -> independent decoder is theorems end to end: C02_bytes_parse / C02_sheet_bytes_decode (the XML 1.0 reader returns the tree that was written), C02_sheet_decodes (no diagnostics = ascending, in range, indexes inside tables, child order, r:id resolves), C02_content_types_cover, C02_package_rels_resolve, C02_rel_ids_unique, C02_sheet_ids_unique, C02_package_no_diagnostics and C02_book_decodes (decode pkg = the sheet list, sheet bodies, defined names and active tab of the workbook, no diagnostics). The models are tied to the code on every run (bytes re-rendered and compared, cell / sheet / package bridges). What the models do not cover (opaque bodies, drawings, charts, comments, tables, raw parts: listed in level_note and partial_clauses) stays translation validation by the same independent reader executed in Lean on every part of every written package. "
+    "level_text": "Proof for the modelled package: for a workbook of n sheets, plain or with COMMENTS (any n, any mixture; cells of the modelled fragment, rows, merged ranges, hyperlinks, defined names, hidden sheets, comments with their VML / comments parts) the chain writer models -> characters -> element trees -> package -> independent decoder is theorems end to end: C02_bytes_parse / C02_sheet_bytes_decode (the XML 1.0 reader returns the tree that was written), C02_sheet_decodes (no diagnostics = ascending, in range, indexes inside tables, child order, r:id resolves), C02_content_types_cover, C02_package_rels_resolve, C02_rel_ids_unique, C02_sheet_ids_unique, C02_package_no_diagnostics and C02_book_decodes (decode pkg = the sheet list, sheet bodies, defined names and active tab of the workbook, no diagnostics). The models are tied to the code on every run (bytes re-rendered and compared, cell / sheet / package bridges). What the models do not cover (opaque bodies, drawings, charts, tables, printer settings, raw parts: listed in level_note and partial_clauses) stays translation validation by the same independent reader executed in Lean on every part of every written package. "
                   "Every part of every package the "
                   "library writes (generated workbooks with cells of all kinds, hyperlinks, merges, defined names, comments, validations, conditional formats, "
                   "protection, hidden sheets, special-character names; re-saved corpus files; standard and light compression) is lexed by an XML 1.0 reader and decoded "
@@ -94,23 +94,40 @@ PROP = {
                   "(BookP.WF, decidable), and C02_book_decodes: decode pkg = (some book, []) where book has the sheet list in order (name, visibility, and per sheet exactly its cells, merged ranges, hyperlinks, "
                   "rows), the defined names and the active tab; the writer model is total (C02_package_written). No path hypothesis is left: the OPC path rules of the independent reader "
                   "(Spec/Sml.lean: segsOf / resolveTargetL / relsNameOfL / relsSourceL on the characters of a name) are evaluated for symbolic sheet numbers (Lemmas/PackagePath.lean). "
+                  "SHEETS WITH COMMENTS (Umya/Model/PackageNodeCmt.lean = the same model extended by what make_buffer adds for a sheet with comments; theorems of Thm/C02PkgCmt.lean, for any number of sheets with and "
+                  "without comments in any mixture): the VML part xl/drawings/vmlDrawing{v}.vml and the comments part xl/comments{c}.xml (trees of C06's writeVml / writeComments) numbered per family by "
+                  "WriterManager's smallest-free-index loop, modelled on fuel and proved to return the smallest unregistered index for EVERY set of registered numbers (C02_cmt_free_index_smallest) and, run over the "
+                  "sheets in order, to give sheet i the pair (m+1, m+1), m = the number of earlier sheets with comments, nothing to a sheet without (C02_cmt_numbers_own_pair); the sheet relationships part = hyperlink "
+                  "relationships first, then rId{r} vmlDrawing and rId{r+1} comments, r = the counter after the hyperlink loop (C02_cmt_hyperlinks_unchanged, C02_cmt_sheet_rels_own_parts: the targets resolve from "
+                  "the sheet part to THIS sheet's VML / comments parts, which hold this sheet's trees); the <legacyDrawing r:id> child carries the id under which the decoder finds the vmlDrawing relationship - no hyperlink "
+                  "relationship has it: the counters of worksheet.rs and worksheet_rels.rs agree (C02_cmt_legacy_drawing_resolves); [Content_Types].xml has the vml Default and one comments Override per comments part "
+                  "(C02_cmt_content_types_cover, C02_cmt_content_types_parts); C02_cmt_package_rels_resolve, C02_cmt_rel_ids_unique, and C02_cmt_package_no_diagnostics / C02_cmt_book_decodes: decode pkg = (some book, []) "
+                  "with the sheet list, bodies (hyperlinks each on its own cell with its own target), names and active tab, under BookC.WF (as BookP.WF; the r:id of legacyDrawing is proved, not assumed); total writer "
+                  "C02_cmt_package_written; without any comment the package is the plain model's (C02_cmt_plain_same). Comments are not part of the decoder's BookV: the theorems say their parts disturb nothing; that "
+                  "the comments come back on the same cells is C06. "
                   "C02_book_decodes_partial (any package holding the rendered workbook parts, path resolution as hypothesis) stays as the more general, weaker statement; C02_sheet_names_case_fails is the witness of the defect repaired by fix 95713cc. "
                   "Tie to the code on every run: request `c02 sheetbridge` (trees of sheetN.xml / rels / workbook.xml / workbook.xml.rels / worksheet Overrides against the models, hypotheses of C02_sheet_decodes evaluated "
-                  "on the real frame and its conclusion checked on the real package) and request `c02 pkgbridge` (generated workbooks incl. a dedicated generator with 1..6 plain sheets, with / without any string, "
-                  "hidden sheets, removed and re-added sheets, defined names, sheets with no / only internal / external hyperlinks): the SKELETON of the model package - part names, content type per part, the "
-                  "Default and Override elements as sets, the (Id, Type, Target, external) triples of every .rels part as sets - is compared with the real package's; in a plain workbook the two part lists "
-                  "must be equal, otherwise the model skeleton must be contained in the real one (the rest is counted outside-model).",
-    "level_note": "Proved for all inputs of the MODELLED fragment: a workbook of n plain sheets (any n, any cells of the CellX fragment, merged ranges, hyperlinks, row table, defined names, "
-                  "hidden sheets), from the writer models down to `decode pkg = (some book, [])`, with the characters -> tree step proved for the tag-level writer model. Opaque, i.e. carried as arbitrary trees / "
+                  "on the real frame and its conclusion checked on the real package) and request `c02 pkgbridge` (generated workbooks incl. a dedicated generator with 1..6 sheets, with / without any string, "
+                  "hidden sheets, removed and re-added sheets, defined names, sheets with no / only internal / external hyperlinks, comments on no sheet / a random subset / every sheet but the first / every sheet, "
+                  "also on a sheet removed afterwards): the SKELETON of the model package - part names incl. the VML / comments parts with their numbers, content type per part, the "
+                  "Default and Override elements as sets, the (Id, Type, Target, external) triples of every .rels part as sets, the r:id of every <legacyDrawing> - is compared with the real package's; in a workbook "
+                  "whose only part-adding feature is comments (counted workbook.plain / workbook.with-comments) the two part lists must be EQUAL, otherwise the model skeleton (without comments) must be contained in "
+                  "the real one (workbook.outside-model). Quick run: 290 workbooks = 76 plain + 214 with comments + 0 outside the model.",
+    "level_note": "Proved for all inputs of the MODELLED fragment: a workbook of n sheets each plain or with comments (any n, any mixture, any cells of the CellX fragment, merged ranges, hyperlinks, row table, defined names, "
+                  "hidden sheets, any comments whose coordinates print), from the writer models down to `decode pkg = (some book, [])`, with the characters -> tree step proved for the tag-level writer model. Opaque, i.e. carried as arbitrary trees / "
                   "frames under explicit decidable hypotheses evaluated per file: the bodies of docProps/app.xml, docProps/core.xml, xl/theme/theme1.xml, xl/styles.xml (only the cellXfs / dxfs counts are read), "
-                  "the children of <worksheet> other than sheetData / mergeCells / phoneticPr / hyperlinks (Frame.ok / colsOk / dxfOk / ridsOk / nf), the children of <workbook> other than sheets / definedNames "
+                  "the children of <worksheet> other than sheetData / mergeCells / phoneticPr / hyperlinks / legacyDrawing (Frame.ok / colsOk / dxfOk / ridsOk / nf; in the comments model legacyDrawing is rendered and its r:id proved "
+                  "to resolve, Frame.ok is asked of the written frame, ridsOk only of the remaining opaque children, which may name hyperlink relationships only), the children of <workbook> other than sheets / definedNames "
                   "(WbFrame.ok; bookViews with activeTab is one of them). Outside the package model (validated per file by the executed reader only): custom document properties, macros (vbaProject.bin, macro "
-                  "content type), ribbon, pivot caches, raw (lazily loaded, not deserialized) sheets and every part a loaded workbook carries verbatim, and sheets with drawings, charts, images, comments / VML, OLE "
-                  "objects, printer settings or tables (each adds parts, Default extensions, Overrides and sheet relationships after the hyperlink ones). The package theorems are about element TREES in the parts "
+                  "content type), ribbon, pivot caches, raw (lazily loaded, not deserialized) sheets and every part a loaded workbook carries verbatim, and sheets with drawings, charts, images, OLE "
+                  "objects (their VML shapes too), printer settings or tables (each adds parts, Default extensions, Overrides and sheet relationships after the hyperlink ones; a table relationship would stand "
+                  "between the vmlDrawing and the comments relationship). In the comments model the trees of the VML / comments parts are C06's writer models (tied by C06's `cmt` requests); C02 uses only that they are "
+                  "trees, their names, content types, relationships and numbers. The model lists the VML / comments parts after the sheet parts; the code interleaves them with the sheet relationship parts (order of zip "
+                  "entries: below the comparison). The package theorems are about element TREES in the parts "
                   "(Part.xml); the step characters -> tree is C02_bytes_parse / C02_sheet_bytes_decode for the tag-level model, and `c02 part ... w` (render=same) per real part. The style table behind the s index, "
                   "and the decoder's xfs view of the styles part, are not characterised. "
                   "Trusted: the Lean reader (spec, ~650 lines; its path rules were restated on List Char in this round - same behaviour, re-validated by every check that executes it: C02, C03, C04, C06, C11), "
-                  "the models Umya/Model/CellNode.lean, SheetNode.lean, WorkbookNode.lean, PackageNode.lean (checked against the real parse / the real skeleton on every run), the zip crate, "
+                  "the models Umya/Model/CellNode.lean, SheetNode.lean, WorkbookNode.lean, PackageNode.lean, PackageNodeCmt.lean (checked against the real parse / the real skeleton on every run), the zip crate, "
                   "the harness view function and C01's fact scanner.",
     "expect_theorems": ["C02_datatype_matches_source", "C02_channels_match_source", "C02_text_channel", "C02_text_channel_conversion", "C02_attr_channel", "C02_escaped_is_inert", "C02_sheetdata_ascending",
                         "C02_hyperlink_pairing",
@@ -126,7 +143,10 @@ PROP = {
                         "C02_cell_node_normal_form", "C02_si_node_normal_form", "C02_si_bytes_decode_default",
                         "C02_rows_are_cells", "C02_cells_are_rows", "C02_sheet_normal_form", "C02_sheet_bytes_decode",
                         "C02_content_types_cover", "C02_content_types_sheets", "C02_package_rels_resolve", "C02_rel_ids_unique", "C02_sheet_ids_unique",
-                        "C02_active_tab_in_range", "C02_package_no_diagnostics", "C02_book_decodes", "C02_package_written"],
+                        "C02_active_tab_in_range", "C02_package_no_diagnostics", "C02_book_decodes", "C02_package_written",
+                        "C02_cmt_free_index_smallest", "C02_cmt_numbers_own_pair", "C02_cmt_content_types_cover", "C02_cmt_content_types_parts", "C02_cmt_package_rels_resolve",
+                        "C02_cmt_sheet_rels_own_parts", "C02_cmt_rel_ids_unique", "C02_cmt_legacy_drawing_resolves", "C02_cmt_hyperlinks_unchanged",
+                        "C02_cmt_package_no_diagnostics", "C02_cmt_book_decodes", "C02_cmt_package_written", "C02_cmt_plain_same"],
     "rule": "case = one workbook (generated from a per-case seed, or a corpus file re-saved) written with the standard or the light writer; every part is one request; "
             "the `decode` request compares violations (must be none) and the decoded view; the final `bridge` request carries the cell / <si> facts scanned from the real parts "
             "and (generated workbooks) the in-memory cells, and must answer ok; the `sheetbridge` and `pkgbridge` requests (generated workbooks) carry the in-memory sheets / workbook and must answer ok. non-trivial = every part / decode / bridge request; distinct = distinct request line",
@@ -136,16 +156,22 @@ PROP = {
                                   "harness/src/c01.rs::package_facts (non-unescaping scanner of the real parts)",
                                   "tree-level writer models Umya/Model/SheetNode.lean, Umya/Model/WorkbookNode.lean (checked against the real parse by `c02 sheetbridge` on every run; "
                                   "below the comparison: cellXfs indexes, opaque frame, presence of state=visible)",
-                                  "package model Umya/Model/PackageNode.lean (its skeleton is compared with the real package by `c02 pkgbridge` on every run; order of parts in the zip and of Overrides is below the comparison)"],
+                                  "package model Umya/Model/PackageNode.lean and its extension by sheets with comments Umya/Model/PackageNodeCmt.lean (the skeleton - incl. VML / comments part numbers, vml Default, comments Overrides, "
+                                  "vmlDrawing / comments relationships, legacyDrawing r:id - is compared with the real package by `c02 pkgbridge` on every run; order of parts in the zip and of Overrides is below the comparison; "
+                                  "WriterManager's `files` is modelled as the list of numbers registered per family)"],
     "assumptions": ["C02_bytes_parse: element and attribute names are XML Names, attribute names distinct per element, attribute values and texts consist of XML 1.0 Chars "
                     "(decidable WF; evaluated by the driver on every claimed part)"],
-    "partial_clauses": ["package: proved (decode pkg = (some book, []), all diagnostics empty) for the MODELLED package skeleton = workbooks of n plain sheets; workbooks with custom properties, macros, ribbon, pivot "
-                        "caches, raw sheets, or sheets with drawings / charts / images / comments / VML / OLE objects / printer settings / tables are outside the package model and are validated per file "
-                        "(independent reader executed on every part; pkgbridge checks that the model skeleton is contained in theirs)",
+    "partial_clauses": ["package: proved (decode pkg = (some book, []), all diagnostics empty) for the MODELLED package skeleton = workbooks of n sheets each plain or with comments (VML part, comments part, their "
+                        "relationships, legacyDrawing, vml Default, comments Override); workbooks with custom properties, macros, ribbon, pivot "
+                        "caches, raw sheets, or sheets with drawings / charts / images / OLE objects / printer settings / tables are outside the package model and are validated per file "
+                        "(independent reader executed on every part; pkgbridge checks that the model skeleton is contained in theirs); tables were not brought into the model (they need tableParts in the sheet theorem: "
+                        "Frame.ok excludes it, decodeSheet returns the tables)",
+                        "comments: the package theorems say the comments / VML parts are present, typed, numbered, related and harmless to the decoded workbook; the independent decoder does not read comments "
+                        "(BookV has none), so 'the comments are the workbook's' is C06's statement, not C02's; the bodies of both parts enter the byte-level claim only through `c02 part ... w` per file (VML parts are not claimed there)",
                         "opaque bodies: docProps/app.xml, docProps/core.xml, theme, styles are arbitrary trees in the package theorems (name, content type, relationship only; of styles the cellXfs / dxfs counts); "
                         "their XML well-formedness is validated per file, and per part by `c02 part ... w` (render=same)",
                         "cells: shared / array formulas, inline strings (<is>), cm/vm/ph attributes are outside the modelled fragment (counted as outside-fragment by the bridge; validated per file by decode)",
-                        "sheet: the children of <worksheet> other than sheetData, mergeCells, phoneticPr, hyperlinks (sheetPr, dimension, sheetViews, sheetFormatPr, cols, sheetProtection, autoFilter, "
+                        "sheet: the children of <worksheet> other than sheetData, mergeCells, phoneticPr, hyperlinks and (comments model) legacyDrawing (sheetPr, dimension, sheetViews, sheetFormatPr, cols, sheetProtection, autoFilter, "
                         "conditionalFormatting, dataValidations, printOptions ... extLst) are opaque under Frame.ok / colsOk / dxfOk / ridsOk / nf (evaluated per file); sheets with tableParts, shared/array formulas or "
                         "cells outside the CellX fragment are outside the theorem (validated per file); row attributes thickBot, customHeight, x14ac:dyDescent and the style table behind the s index are not modelled",
                         "workbook: bookViews (activeTab) is inside the opaque WbFrame: C02_active_tab_in_range needs the stored index to be inside the sheet list - remove_sheet clamps it (fix 649e69a), "
